@@ -44,7 +44,8 @@ def run(tier, seed):
             pass
         pv = g.params_values(small=True)
         p["obs"] = [{"obs": "struct"}, {"obs": "initpop", "params": pv}, {"obs": "onestep", "params": pv},
-                    {"obs": "oracle", "name": "c06", "params": pv, "program": checklib.strip_meta(dict(p, obs=[]))}]
+                    {"obs": "oracle", "name": "c06", "params": pv, "params2": g.params_values(small=True),
+                     "program": checklib.strip_meta(dict(p, obs=[]))}]
         progs.append(p)
     out = []
     for p, st in with_struct(progs):
